@@ -73,6 +73,11 @@ def gen_params(family, rng, simple=False):
             p["biort_tuple"] = True
         elif r < 0.3:
             p["qshift_tuple"] = True
+        elif r < 0.36:
+            # an argument TYPE the pinned constructors reject (TypeError): a
+            # user-labelled pywt.Wavelet as level-1 filter set
+            p["biort_pywt"] = {"name": _pick(rng, ["bior4.4", "bior2.2", "bior2.4", "rbio4.4"]),
+                               "label": _pick(rng, ["proto", "w"])}
         od, ri = _pick(rng, ODIM_RIDIM) if rng.random() < 0.4 else (2, -1)
         p["o_dim"], p["ri_dim"] = od, ri
         p["mode"] = "symmetric" if rng.random() < 0.85 else "zero"
@@ -116,6 +121,8 @@ def inverse_params(fwd_family, p, rng):
     if fwd_family == "dtf":
         q = {"biort": p["biort"], "qshift": p["qshift"],
              "o_dim": p["o_dim"], "ri_dim": p["ri_dim"], "mode": p["mode"]}
+        if p.get("biort_pywt"):
+            q["biort_pywt"] = dict(p["biort_pywt"])
         if p.get("biort_tuple"):
             q["biort_tuple"] = True
         if p.get("qshift_tuple"):
@@ -162,6 +169,32 @@ BASE_INIT = {
 }
 
 
+_LIT = {}
+
+
+def harvested_literals(cls, pname):
+    """Short string literals on source lines of the class's module that mention
+    parameter `pname` (e.g. `if normalize not in ('l1', 'l2')`): the values a
+    new enum-like option is likely to accept."""
+    import inspect
+    import re
+    import sys as _sys
+    key = (cls.__module__, pname)
+    if key not in _LIT:
+        out = []
+        try:
+            src = inspect.getsource(_sys.modules[cls.__module__])
+        except Exception:  # noqa
+            src = ""
+        for ln in src.splitlines():
+            if re.search(r"\b%s\b" % re.escape(pname), ln) and not ln.lstrip().startswith("#"):
+                for mt in re.finditer(r"['\"]([A-Za-z0-9_\-\.]{1,12})['\"]", ln):
+                    if mt.group(1) not in out and mt.group(1) != pname:
+                        out.append(mt.group(1))
+        _LIT[key] = out[:8]
+    return _LIT[key]
+
+
 def fuzz_kwargs(cls, fuzz):
     """Keyword arguments for constructor parameters the pinned class does not
     have (a change under test may add options): booleans flipped, None given a
@@ -186,12 +219,16 @@ def fuzz_kwargs(cls, fuzz):
             continue
         if isinstance(prm.default, bool):
             out[prm.name] = not prm.default
-        elif prm.default is None:
-            out[prm.name] = [True, 1, "float32"][fuzz % 3]
+        elif prm.default is None or isinstance(prm.default, str):
+            lits = harvested_literals(cls, prm.name)
+            if lits and (fuzz >> 2) % 4 != 3:
+                out[prm.name] = lits[(fuzz >> 1) % len(lits)]
+            elif prm.default is None:
+                out[prm.name] = [True, 1, "float32"][fuzz % 3]
+            elif "dtype" in prm.name.lower():
+                out[prm.name] = "float32"
         elif isinstance(prm.default, (int, float)):
             out[prm.name] = prm.default + 1
-        elif isinstance(prm.default, str) and "dtype" in prm.name.lower():
-            out[prm.name] = "float32"
     return out
 
 
@@ -221,6 +258,10 @@ def _build(family, p, given=None):
     if family in ("dtf", "dti"):
         biort, qshift = p["biort"], p["qshift"]
         inv = family == "dti"
+        if p.get("biort_pywt"):
+            import pywt
+            bw = p["biort_pywt"]
+            biort = pywt.Wavelet(bw["label"], filter_bank=pywt.Wavelet(bw["name"]).filter_bank)
         if p.get("biort_tuple"):
             t = [a.copy() for a in L.coeffs.biort(biort)]
             biort = (t[1], t[3]) if inv else (t[0], t[2])
